@@ -14,7 +14,8 @@ OPS = "OpsC04"
 QUICK = [
     dict(mode="ex", maxops=2, maxobjs=4, sizes="SizesAll", shapes="ShapesAll", complens="{0, 2}", ops=OPS),
     dict(mode="ex", maxops=3, maxobjs=4, sizes="SizesSmall", shapes="ShapesSmall", complens="{2}", ops=OPS, limit=4000),
-    dict(mode="sim", maxops=10, maxobjs=8, sizes="SizesAll", shapes="ShapesAll", complens="{0, 1, 2, 3}", ops=OPS, num=40, per_prefix=2, limit=600),
+    dict(mode="sim", maxops=10, maxobjs=8, sizes="SizesAll", shapes="ShapesAll", complens="{0, 1, 2, 3}", ops=OPS, num=300, per_prefix=2, limit=2500),
+    dict(mode="sim", maxops=8, maxobjs=7, sizes="SizesTiny", shapes="ShapesTiny", complens="{1, 2}", ops=OPS, num=300, per_prefix=1, limit=1500),
 ]
 THOROUGH = [
     dict(mode="ex", maxops=3, maxobjs=4, sizes="SizesSmall", shapes="ShapesSmall", complens="{2}", ops=OPS),
@@ -46,7 +47,7 @@ def cover(ctx, res, what):
 
 
 def run(ctx):
-    res = encpipe.run(ctx, QUICK if ctx.quick else THOROUGH)
+    res = encpipe.run(ctx, QUICK if ctx.quick else THOROUGH, dump_every=3)
     # C04's verdict: read-back through the library (direct and through every serialisation path) and
     # the value TLC decodes from the real bytes
     report(ctx, res, want_go=True, want_tlc=False)
